@@ -11,6 +11,7 @@ import Driver.Ast
 import Driver.Ids
 import Driver.Bufio
 import Driver.LineRec
+import Driver.InlineLoop
 namespace Driver
 
 def handle (line : String) : String :=
@@ -29,6 +30,7 @@ def handle (line : String) : String :=
   | "ids" :: rest => handleIds rest
   | "bufio" :: rest => handleBufio rest
   | "linerec" :: rest => handleLineRec rest
+  | "inlineloop" :: rest => handleInlineLoop rest
   | _ => bad
 
 partial def loop (hin hout : IO.FS.Stream) : IO Unit := do
